@@ -1,1 +1,2 @@
 import ModbusProofs.Properties.C03
+import ModbusProofs.Properties.C10
